@@ -54,7 +54,9 @@ Record cfg := mkCfg {
      names hold a NIfTI pair or an SPM Analyze image: loadsave.save keeps the class when the name fits it, else
      converts - Nifti1Image -> Nifti1Pair, ... ); measured into C09/Tables.v *)
   g_tclass : fmt -> fmt -> fmt;
-  g_viewfix : bool }.                        (* fix 9bb93cff: unmap_if_target follows the .base chain to the map *)                        (* fix 29b7b6ce: after a write onto the file the image's own proxy
+  g_viewfix : bool;                          (* fix 9bb93cff: unmap_if_target follows the .base chain to the map *)
+  g_maprepoint : bool }.                     (* fix 4923d550: when unmap_if_target had to copy the data (they were mapped
+                                                from the target), that copy becomes the image's data afterwards *)                        (* fix 29b7b6ce: after a write onto the file the image's own proxy
                                                 reads, _dataobj becomes the in-memory data and the caches go *)
 
 Definition pinfo_of (g : cfg) (p : nat) : pinfo := nth p (g_paths g) (mkP Nii false).
@@ -273,9 +275,12 @@ Definition written (g : cfg) (tf : fmt) (od : dtype) (v : option nat) (a : nat) 
 
 (* proxy_reads_target (os.path.samefile on the proxy's file_like), evaluated by the to_file_map of the image
    object itself - a class conversion saves a converted copy, which is then the one re-pointed *)
+(* `reads_target or data is not raw`: the image's own proxy reads the target, or unmap_if_target copied the data *)
 Definition repoints (g : cfg) (im : image) (tf : fmt) (t : nat) : bool :=
-  g_repoint g && fmt_eqb (i_fmt im) tf
-  && match i_src im with SProxy p _ _ _ => Nat.eqb (fid g p) (fid g t) | _ => false end.
+  fmt_eqb (i_fmt im) tf
+  && ((g_repoint g && match i_src im with SProxy p _ _ _ => Nat.eqb (fid g p) (fid g t) | _ => false end)
+      || (g_maprepoint g && g_fix g && recognised g im
+          && match mapped g im with Some p => Nat.eqb (fid g p) (fid g t) | None => false end)).
 (* self._dataobj = data; self.uncache() *)
 Definition repointed (im : image) (v : option nat) : image :=
   mkI (SArray v) (i_fmt im) (i_hdt im) (i_aff im) CNone.
